@@ -279,7 +279,7 @@ def resolve_names(name, body, names_spec):
             res[ph] = mm.group(1)
         elif kind == 'iflet':
             # the k-th `if let Some(X) = ..` of the function
-            ms = [mm for mm in re.finditer(r'\bif\s+let\s+Some\s*\(\s*(\w+)\s*\)\s*=', code)]
+            ms = [mm for mm in re.finditer(r'\b(?:if\s+)?let\s+Some\s*\(\s*(\w+)\s*\)\s*=', code)]   # `if let Some(X) = ..` or `let Some(X) = .. else`
             k = int(arg)
             if k >= len(ms):
                 raise AnchorLost('%s: placeholder %s refers to `if let Some(..)` #%d' % (name, ph, k))
